@@ -5,6 +5,8 @@ CONSTANTS
   Variants <- V2
   BodyOf <- Body2
   MaxOps = 6
+  MaxT = 0
+  AstHash = TRUE
   MaxTorn = 1
   TransitiveKey = FALSE
   DeepHeader = FALSE
